@@ -1247,6 +1247,12 @@ func TypeNew(metatype *Type, args Tuple, kwargs StringDict) (Object, error) {
 	if err != nil {
 		return nil, err
 	}
+	if _, ok := basesObj.(Tuple); !ok {
+		return nil, ExceptionNewf(TypeError, "type() argument 2 must be tuple, not %s", basesObj.Type().Name)
+	}
+	if _, ok := orig_dictObj.(StringDict); !ok {
+		return nil, ExceptionNewf(TypeError, "type() argument 3 must be dict, not %s", orig_dictObj.Type().Name)
+	}
 	name := nameObj.(String)
 	bases := basesObj.(Tuple)
 	orig_dict := orig_dictObj.(StringDict)
